@@ -400,6 +400,9 @@ type node struct {
 	v    vnt
 	bits int    // nPad/nSkip
 	raw  []byte // nRootRaw content
+	// rm (nStruct): the decoder adds a placeholder field behind the kids and removes it again
+	// (Value.Remove, what a decoder does that replaces a field in a later pass)
+	rm bool
 }
 
 type bitw struct{ b []bool }
@@ -483,7 +486,15 @@ func (n *node) emit(d *decode.D) {
 	case nSkip:
 		d.SeekRel(int64(n.bits))
 	case nStruct:
-		d.FieldStruct(n.name, func(d *decode.D) { emitKids(d, n.kids) })
+		d.FieldStruct(n.name, func(d *decode.D) {
+			emitKids(d, n.kids)
+			if n.rm {
+				d.FieldValueUint("placeholder", 1)
+				if err := d.FieldGet("placeholder").Remove(); err != nil {
+					d.Fatalf("c08 placeholder: %s", err)
+				}
+			}
+		})
 	case nArray:
 		d.FieldArray(n.name, func(d *decode.D) { emitKids(d, n.kids) })
 	case nRootStruct:
@@ -577,6 +588,15 @@ func compoundNodes(nm *namer, ks []*kind) []*node {
 	// empty array, empty struct
 	out = append(out, &node{t: nArray, name: nm.next("arr_empty")})
 	out = append(out, &node{t: nStruct, name: nm.next("struct_empty")})
+	// structs that had a field removed again: empty, and with two fields left
+	out = append(out, &node{t: nStruct, name: nm.next("struct_rm_empty"), rm: true})
+	{
+		in := &namer{unsorted: nm.unsorted}
+		s := &node{t: nStruct, name: nm.next("struct_rm"), rm: true}
+		s.kids = append(s.kids, leaf(in, "u8", plain)...)
+		s.kids = append(s.kids, leaf(in, "str", symv)...)
+		out = append(out, s)
+	}
 	// mixed array: one of every kind plain and with a string sym
 	a = &node{t: nArray, name: nm.next("arr_mixed")}
 	in = &namer{unsorted: nm.unsorted}
